@@ -60,6 +60,11 @@ func (c *c05gen) trail() string {
 		if c.g.Chance(0.25) {
 			return fmt.Sprintf(" /* trailing %d */", c.n)
 		}
+		if c.g.Chance(0.2) {
+			// a trailing block comment that ends on the next line, directly above whatever follows
+			c.cls["trailing-block-ends-on-next-line"] = true
+			return fmt.Sprintf(" /* trailing %d\n+tag%d=trailing */", c.n, c.n)
+		}
 		return fmt.Sprintf(" // trailing %d", c.n)
 	}
 	return ""
@@ -230,10 +235,14 @@ func normLines(l []string) string {
 // then requested itself (its comments must still be delivered)
 var c05depFirst = false
 
+// c05twice: the package is requested a second time into the universe that already holds it
+var c05twice = false
+
 func c05(g *Gen) {
 	n := g.N(150, 4000)
 	for i := 0; i < n; i++ {
 		c05depFirst = i%4 == 3
+		c05twice = i%4 == 1
 		c := &c05gen{g: g, cls: map[string]bool{}}
 		pkg := "cm"
 		path := fmt.Sprintf("ex.test/cm%d", i)
@@ -264,6 +273,9 @@ func c05(g *Gen) {
 		cls := []string{"layout"}
 		if c05depFirst {
 			cls = append(cls, "dependency-first-then-requested")
+		}
+		if c05twice {
+			cls = append(cls, "requested-twice-into-one-universe")
 		}
 		for k := range c.cls {
 			cls = append(cls, k)
